@@ -72,10 +72,11 @@ var streamSeq int64
 // readStream gives the text to a fresh Parser as the layer file a.<ext> and
 // reports the documents it holds afterwards.
 func readStream(r *Run, ext, text string) (ok bool, docs []string, msg string) {
-	d := filepath.Join(r.Dir, fmt.Sprintf("st%d", atomic.AddInt64(&streamSeq, 1)))
+	// one file per call in a directory of the run (names never repeat)
+	d := filepath.Join(r.Dir, "streams")
 	os.MkdirAll(d, 0o755)
-	defer os.RemoveAll(d)
-	p := filepath.Join(d, "a."+ext)
+	p := filepath.Join(d, fmt.Sprintf("s%d.%s", atomic.AddInt64(&streamSeq, 1), ext))
+	defer os.Remove(p)
 	if err := os.WriteFile(p, []byte(text), 0o644); err != nil {
 		Fatal("stream file: %v", err)
 	}
